@@ -1,4 +1,71 @@
-/- Line protocol of C13: placeholder until the model of this property is built. -/
+import BertE.Gen.Dispatcher
+import BertE.Model.Dispatcher
+/- Line protocol of the dispatcher model: the arguments are the actions of a trace, run from `init`:
+     a.<t>.<id>.<k>.<key>   accept          c.<t>.<0|1>   check          x.<t>   checkFail
+     p.<t>.<id>.<k>.<key>   put             s.<t>.<id>.<k>.<key>   skip
+     g.<id>.<k>.<key>       get             f.ok | f.<family>.<Class>     finish
+   (k: p = pull request job, c = commit job, a = admin job).
+   Answer: the state after every action, joined by `;`:
+     P<ids>|C<id or ->|D<length>:<first three id=status>|W<idle | run<id> | dead>
+   and `disabled` in place of the first action that is not enabled (the rest is not run). -/
 namespace BertE.Drv.C13
-def handle (_args : List String) : String := "bad-op"
+open BertE.Dispatcher
+
+def genCfg : Cfg :=
+  { dedupPending := BertE.Gen.Dispatcher.dedupSources.contains "pending"
+    dedupCurrent := BertE.Gen.Dispatcher.dedupSources.contains "current"
+    dedupDone := BertE.Gen.Dispatcher.dedupSources.contains "done"
+    tryOps := BertE.Gen.Dispatcher.tryOps.map Op.ofString
+    handler := BertE.Gen.Dispatcher.handler
+    handlerOps := BertE.Gen.Dispatcher.handlerOps.map Op.ofString
+    finallyOps := BertE.Gen.Dispatcher.finallyOps.map Op.ofString
+    afterOps := BertE.Gen.Dispatcher.afterOps.map Op.ofString
+    doneMax := BertE.Gen.Dispatcher.doneMax
+    mro := BertE.Gen.Dispatcher.excMro
+    eqs := BertE.Gen.Dispatcher.eqTable }
+
+def kindOf? : String → Option Kind
+  | "p" => some .pr
+  | "c" => some .commit
+  | "a" => some .admin
+  | _ => none
+
+def jobOf? (i k key : String) : Option Job := do
+  let i ← i.toNat?
+  let k ← kindOf? k
+  let key ← key.toNat?
+  pure ⟨i, k, key⟩
+
+def actOf? (tok : String) : Option Act :=
+  match tok.splitOn "." with
+  | ["a", t, i, k, key] => do pure (.accept (← t.toNat?) (← jobOf? i k key))
+  | ["c", t, "0"] => do pure (.check (← t.toNat?) false)
+  | ["c", t, "1"] => do pure (.check (← t.toNat?) true)
+  | ["x", t] => do pure (.checkFail (← t.toNat?))
+  | ["p", t, i, k, key] => do pure (.put (← t.toNat?) (← jobOf? i k key))
+  | ["s", t, i, k, key] => do pure (.skip (← t.toNat?) (← jobOf? i k key))
+  | ["g", i, k, key] => do pure (.get (← jobOf? i k key))
+  | ["f", "ok"] => some (.finish .ok)
+  | ["f", fam, cls] => do pure (.finish (.raised (← Family.ofString? fam) cls))
+  | _ => none
+
+def showState (s : State) : String :=
+  let p := ",".intercalate (s.pending.map (fun j => toString j.id))
+  let c := match s.current with | some j => toString j.id | none => "-"
+  let d := ",".intercalate ((s.done.take 3).map (fun e => s!"{e.1.id}={e.2}"))
+  let w := match s.worker with | .idle => "idle" | .running j => s!"run{j.id}" | .dead => "dead"
+  s!"P{p}|C{c}|D{s.done.length}:{d}|W{w}"
+
+def runShow : State → List Act → List String → List String
+  | _, [], acc => acc.reverse
+  | s, a :: tr, acc =>
+    match step genCfg s a with
+    | some s' => runShow s' tr (showState s' :: acc)
+    | none => ("disabled" :: acc).reverse
+
+def handle (args : List String) : String :=
+  match args.mapM actOf? with
+  | some acts => ";".intercalate (runShow init acts [])
+  | none => "bad-op"
+
 end BertE.Drv.C13
